@@ -417,18 +417,16 @@ def stub_merge(cset):
 
 # ---- post-processing stubs
 
+# one representative per distinct behaviour of the curation code (only the first template of a group is used):
 FG_CHOICES = [
-    ([], []),
-    (["aldehyde"], ["primary_alcohol"]),
-    (["ketone"], []),
-    (["ester"], []),
-    (["amid"], []),
-    (["some_other_group"], []),
-    (["primary_alcohol"], ["aldehyde"]),
-    (["secondary_alcohol"], ["ketone"]),
-    (["primary_alcohol"], ["carboxylic_acid"]),
-    (["aldehyde"], ["carboxylic_acid"]),
-    (["primary_alcohol"], ["some_other_group"]),
+    ([], []),                                       # no functional-group change: reduction 'other' (H2) / no oxidation
+    (["aldehyde"], ["carboxylic_acid"]),            # reduction template_1 (H2) / oxidation template_3 (KMnO4, H2O)
+    (["ester"], []),                                # reduction template_2 (NaBH4)
+    (["amid"], []),                                 # reduction template_4 (LiAlH4)
+    (["unlisted_group"], ["unlisted_group2"]),      # 'other' on both
+    (["primary_alcohol"], ["aldehyde"]),            # oxidation template_1 (PCC)
+    (["secondary_alcohol"], ["ketone"]),            # oxidation template_1 (PCC)
+    (["primary_alcohol"], ["carboxylic_acid"]),     # oxidation template_2 (KMnO4, H2SO4)
 ]
 
 
@@ -694,9 +692,21 @@ def shipped_rules():
         return json.load(f)
 
 
+_RULES_CACHE: Dict[Any, Any] = {}
+
+
 def pipe_rules(smiles_list=None):
-    """Sub-database of the shipped rules (first record per SMILES), compositions recomputed with real RDKit."""
-    want = list(smiles_list or PIPE_RULE_SMILES)
+    """Sub-database of the shipped rules (first record per SMILES), compositions recomputed with real RDKit.
+    Read once per process, untraced (CrossHair's pure-Python json would otherwise be re-run on every path)."""
+    key = tuple(smiles_list or PIPE_RULE_SMILES)
+    with NoTracing():
+        if key not in _RULES_CACHE:
+            _RULES_CACHE[key] = _pipe_rules(key)
+        return _RULES_CACHE[key]
+
+
+def _pipe_rules(smiles_list):
+    want = list(smiles_list)
     out = []
     seen = set()
     for r in shipped_rules():
